@@ -22,7 +22,7 @@
   of the working directory (finding C10-F3, `regenerate_idempotent`).  The regression witness of the
   repaired finding C10-F1 is `topo_order_depended_on_enum_before_fix`.
 -/
-import AriadneModel.Proofs.OrderPkg
+import AriadneModel.Proofs.OrderPlugins
 
 set_option linter.unusedVariables false
 
@@ -121,6 +121,19 @@ theorem topo_complete (e : EnumOracle) (he : EnumOK e) (names : List Name) (d : 
   intro n hn
   exact dfs_complete h n ((mem_pySorted _ _).mpr ((he names).mem_iff.mpr hn))
 
+/-- the dependency dictionary is acyclic with a rank bounded by its size (every finite DAG has one: longest path) -/
+def AcyclicBounded (d : Deps) : Prop :=
+  ∃ rk : Name → Nat, (∀ n ds m, lookup d n = some ds → m ∈ ds → rk m < rk n) ∧ ∀ n, rk n ≤ d.length
+
+/-- (should) the fuel of the model's DFS is a proof device only: on an acyclic dictionary the
+    `.fuel` branch is unreachable, whatever the enumeration (the remaining error, KeyError on a mixin that
+    was excluded from the module, is the code's own) -/
+theorem sorted_no_fuel (e : EnumOracle) (he : EnumOK e) (names : List Name) (d : Deps) (hac : AcyclicBounded d) :
+    sortedFragmentsNames e names d ≠ .error .fuel := by
+  obtain ⟨rk, hrk, hb⟩ := hac
+  intro h
+  exact dfs_noFuel _ d rk hrk (fun ds x => by rw [mem_pySorted]; exact (he ds).mem_iff) _ hb _ h rfl
+
 /-! ## 2. `_get_model_rebuild_calls` -/
 
 /-- (must) `sorted(top_level, key=class_names.index)`: the order in which the loop met the top-level
@@ -189,6 +202,30 @@ theorem operation_imports_oracle_independent (e₁ e₂ : EnumOracle) (he₁ : E
   summary_eq_of_equiv keep (opImports_equiv e₁ e₂ he₁ he₂ pascal fm g)
     (BlockNoTie.of_equiv (opImports_equiv id e₁ enumOK_id he₁ pascal fm g) (blockNoTie_of_summaryTie_false ht))
 
+/-- (must) ClientForwardRefsPlugin: the `if TYPE_CHECKING:` imports. Every collected type has an import
+    source (the plugin only collects names it found in `imported_classes`). -/
+theorem forward_refs_oracle_independent (e₁ e₂ : EnumOracle) (he₁ : EnumOK e₁) (he₂ : EnumOK e₂) (types : List Name)
+    (imp : List (Name × String)) (keep : Name → Bool) (hall : ∀ c, c ∈ types → ∃ m, lookup imp c = some m)
+    (ht : ∀ r, forwardRefImports id types imp = .ok r → summaryTie r = false) :
+    (forwardRefImports e₁ types imp).map (summary keep) = (forwardRefImports e₂ types imp).map (summary keep) := by
+  obtain ⟨r₁, r₂, h1, h2, eq⟩ := forwardRefImports_equiv e₁ e₂ he₁ he₂ types imp hall
+  obtain ⟨r₀, r₁', h0, h1', eq0⟩ := forwardRefImports_equiv id e₁ enumOK_id he₁ types imp hall
+  rw [h1] at h1'; cases h1'
+  rw [h1, h2]
+  simp only [Except.map]
+  rw [summary_eq_of_equiv keep eq (BlockNoTie.of_equiv eq0 (blockNoTie_of_summaryTie_false (ht r₀ h0)))]
+
+/-- (must) ShorterResultsPlugin: names added to the client module's imports from `extended_imports` -/
+theorem shorter_results_oracle_independent (e₁ e₂ : EnumOracle) (he₁ : EnumOK e₁) (he₂ : EnumOK e₂)
+    (stmts : List ImportFrom) (ext : List (String × List Name)) (keep : Name → Bool)
+    (ht : summaryTie (extendImports id stmts ext) = false) :
+    summary keep (extendImports e₁ stmts ext) = summary keep (extendImports e₂ stmts ext) :=
+  summary_eq_of_equiv keep (extendImports_equiv e₁ e₂ he₁ he₂ stmts ext)
+    (BlockNoTie.of_equiv (extendImports_equiv id e₁ enumOK_id he₁ stmts ext) (blockNoTie_of_summaryTie_false ht))
+
+example : (forwardRefImports id ["GetA", "In1", "GetB"] [("GetA", ".get_a"), ("GetB", ".get_b"), ("In1", ".input_types")]).map (summary (fun _ => true))
+    = .ok [(".get_a", ["GetA"]), (".get_b", ["GetB"]), (".input_types", ["In1"])] := by decide
+
 /-- The property, hash-seed part, at full strength: whatever the enumeration of sets, the package is the same. -/
 def C10_full : Prop :=
   ∀ (keep : Name → Bool) (e₁ e₂ : EnumOracle) (x : PkgIn), EnumOK e₁ → EnumOK e₂ → emitPackage keep e₁ x = emitPackage keep e₂ x
@@ -243,6 +280,13 @@ theorem files_order_independent (dirList₁ dirList₂ : List Entry → List Ent
     loadGraphqlFiles dirList₁ entries = loadGraphqlFiles dirList₂ entries :=
   loadGraphqlFiles_eq_of_perm entries h₁ h₂ hd
 
+/-- (must) the graphqlschema strategy (and everything the client strategy derives from the schema /
+    operation text): any deterministic function of the loaded text is independent of the listing order -/
+theorem graphqlschema_files_order_independent {Out : Type} (gen : String → Out) (dirList₁ dirList₂ : List Entry → List Entry)
+    (entries : List Entry) (h₁ : (dirList₁ entries).Perm entries) (h₂ : (dirList₂ entries).Perm entries) (hd : PathsDistinct entries) :
+    (loadGraphqlFiles dirList₁ entries).map gen = (loadGraphqlFiles dirList₂ entries).map gen := by
+  rw [files_order_independent dirList₁ dirList₂ entries h₁ h₂ hd]
+
 example : loadGraphqlFiles id [⟨["b.graphql"], false, "B"⟩, ⟨["a", "c.gql"], false, "C"⟩, ⟨["a"], true, ""⟩, ⟨["n.txt"], false, "N"⟩]
     = .ok "C\nB" := by decide
 
@@ -291,5 +335,34 @@ theorem regenerate_full_false :
     ∃ (render : Bool → String → String) (irs : List (Name × String)) (dir : Dir),
       runWrites render irs (fun _ => false) dir ≠ runWrites render irs (fun _ => true) (applyLog dir (runWrites render irs (fun _ => false) dir)) :=
   ⟨fun b s => if b then "first-party:" ++ s else "third-party:" ++ s, [("input_types.py", "from gen_pkg.impl import DT")], fun _ => none, by decide⟩
+
+/-! ## non-vacuity of the remaining hypotheses -/
+
+example : fragTie f2Input.defs [] = true ∧ fragTie okInput.defs [] = false := by decide
+
+example : AcyclicBounded f1Deps := by
+  refine ⟨fun n => if n = "Af" then 1 else 0, ?_, ?_⟩
+  · intro n ds m hl hm
+    by_cases hn : n = "Af"
+    · subst hn
+      simp [f1Deps, lookup] at hl
+      subst hl
+      simp at hm
+      rcases hm with rfl | rfl | rfl | rfl <;> decide
+    · simp only [f1Deps, lookup] at hl
+      split at hl
+      · rename_i h; exact absurd h.symm hn
+      · iterate 4 (split at hl; · (cases hl; cases hm))
+        cases hl
+  · intro n
+    simp only [f1Deps]
+    split <;> decide
+
+example : PathsDistinct [⟨["b.graphql"], false, "B"⟩, ⟨["a", "c.gql"], false, "C"⟩] := by
+  intro a b ha hb h
+  simp at ha hb
+  rcases ha with rfl | rfl <;> rcases hb with rfl | rfl <;> simp_all
+
+example : summaryTie (extendImports id [⟨1, "get_a", ["GetA"]⟩] [("get_a", ["GetAA", "Extra"])]) = false := by decide
 
 end Ariadne.C10
